@@ -4,6 +4,7 @@
                contradicts the property on this input. *)
 From Coq Require Import List ZArith NArith Bool String.
 From Verif Require Import Base.Res Model.TreeCache Model.Structure Run.Show.
+From Verif Require Gen.GenTreeCachePins.
 Import ListNotations.
 Open Scope Z_scope.
 
@@ -33,10 +34,10 @@ Definition rcase := ((string -> option Z) * Z * tree * list item * nat * obs * o
 
 Definition model_repeat (c : rcase) : obs :=
   let '(env, a, cnt, body, n, o1, o2) := c in
-  out_obs (outcome_of (compile_block repeat_fuel env [IRepeat cnt body] a)).
+  out_obs (outcome_of (compile_block code_budget repeat_fuel env [IRepeat cnt body] a 0)).
 Definition model_unrolled (c : rcase) : obs :=
   let '(env, a, cnt, body, n, o1, o2) := c in
-  out_obs (outcome_of (unrolled repeat_fuel env n body a)).
+  out_obs (outcome_of (unrolled code_budget repeat_fuel env n body a 0)).
 
 Definition judge_repeat (c : rcase) : N :=
   let '(env, a, cnt, body, n, o1, o2) := c in
@@ -49,12 +50,15 @@ Definition table (l : list (nat * list (stmt plain))) : fid -> list (stmt plain)
            | None => []
            end.
 
-Definition struct_fuel : nat := 8.
+(* one level for the linked file + MAX_INCLUDE_DEPTH nested '.include's: the code refuses the next
+   level with 'recursive-include' (commit 83e4c6e) exactly where the model runs out of this fuel *)
+Definition struct_fuel : nat := S GenTreeCachePins.max_include_depth.
 
 Definition res_obs (r : res (list Z)) : obs :=
   match r with
   | Ok bs => ObsOk bs
   | Err _ => ObsFailed
+  | OutOfFuel => ObsFailed          (* nesting deeper than MAX_INCLUDE_DEPTH: refused *)
   | _ => ObsOther
   end.
 
